@@ -39,7 +39,7 @@ def confirm(d: Path):
         env = {"PYTHONPATH": f"{wt}/src"}
         pid = json.loads((d / "meta.json").read_text())["property"]
         demo = (d / "demo.py").read_text()
-        for pat in (f"/tmp/seedB_{pid}", f"/tmp/seedC_{pid}", f"/tmp/seedD_{pid}", f"/tmp/seedE_{pid}", f"/tmp/seedF_{pid}", f"/tmp/seedG_{pid}", f"/tmp/seedH_{pid}", f"/tmp/seedI_{pid}", f"/tmp/seed_{pid}", f"/tmp/seed_{d.name}"):
+        for pat in (f"/tmp/seedB_{pid}", f"/tmp/seedC_{pid}", f"/tmp/seedD_{pid}", f"/tmp/seedE_{pid}", f"/tmp/seedF_{pid}", f"/tmp/seedG_{pid}", f"/tmp/seedH_{pid}", f"/tmp/seedI_{pid}", f"/tmp/seedJ_{pid}", f"/tmp/seed_{pid}", f"/tmp/seed_{d.name}"):
             demo = demo.replace(pat, wt)
         Path(wt, "demo.py").write_text(demo)
         rc0, out0 = sh([PY, "demo.py"], cwd=wt, env=env, timeout=900)
@@ -94,17 +94,26 @@ def main():
             sh(["git", "-C", "/repo", "worktree", "remove", "--force", wt])
             sys.exit("patch does not apply: " + out)
         env = {"HALMOS_REPO": wt, "PYTHONPATH": f"{wt}/src"}
+    # the checks run from a scratch copy of /verif (Lean project with its build output, tools, known findings), so that the
+    # Gen files regenerated from the changed source and the evidence written there never disturb a check of the real tree
+    # that runs at the same time
+    run_dir = VERIF
+    if not a.inplace:
+        run_dir = Path(tempfile.mkdtemp(prefix="verifrun_"))
+        rc, out = sh(["rsync", "-a", "--exclude", ".git", "--exclude", "seeded", "--exclude", "replays", "--exclude", "findings",
+                      "--exclude", "__pycache__", f"{VERIF}/", f"{run_dir}/"])
+        assert rc == 0, out
     try:
         for c in checks:
             t0 = time.time()
-            rc, out = sh(["./check", c, "--tier", a.tier], cwd=VERIF, env=env, timeout=7200)
+            rc, out = sh(["./check", c, "--tier", a.tier], cwd=run_dir, env=env, timeout=7200)
             lines = [l for l in out.splitlines() if l.startswith(("VIOLATION", "KNOWN-FINDING", "[" + c))]
             viol = [l for l in lines if l.startswith("VIOLATION")]
             result["checks"][c] = {"exit": rc, "violations": len(viol), "first": viol[:3], "summary": lines[-1:], "wall_s": round(time.time() - t0)}
             print(c, "exit", rc, "violations", len(viol), (viol[0][:160] if viol else ""))
             for v in viol[:1]:
                 rp = v.split("replay=")[1].split()[0]
-                src = VERIF / rp
+                src = run_dir / rp
                 if src.exists():
                     (d / f"detected_{c}.json").write_text(src.read_text())
     finally:
@@ -112,9 +121,11 @@ def main():
             sh(["git", "-C", "/repo", "checkout", "--", "."])
         else:
             sh(["git", "-C", "/repo", "worktree", "remove", "--force", wt])
-        # regenerate Gen files against the real tree and restore the committed evidence
-        sh([PY, "tools/setup_all.py"], cwd=VERIF)
-        sh(["git", "checkout", "--", "evidence"], cwd=VERIF)
+            sh(["rm", "-rf", str(run_dir)])
+        if a.inplace:
+            # regenerate Gen files against the real tree and restore the committed evidence
+            sh([PY, "tools/setup_all.py"], cwd=VERIF)
+            sh(["git", "checkout", "--", "evidence"], cwd=VERIF)
     hist = []
     rp = d / "result.json"
     if rp.exists():
